@@ -196,6 +196,57 @@ def free_path(rng, repo):
     return p
 
 
+VENDOR_DIRS = ["pkg", "vendor", "third party", "gen"]
+COPY_NAMES = ["a", "b", "v1", "v2", "copy"]
+
+
+def vendored_copies(rng, repo, pool, files, links, tagd):
+    """A directory created wholesale that holds 2-3 byte-identical sub-trees (identical tree ids) at the
+    same depth and one more at a different depth, optionally with identical blobs under different names
+    and a nested sub-directory inside each copy.  It is either new, or replaces a file or a symlink."""
+    k = rng.random()
+    d = None
+    if k < 0.25 and files:
+        d = rng.choice(files)
+        repo.do(["rm", d])
+        tagd("vendored:replaces-file")
+    elif k < 0.40 and links:
+        d = rng.choice(links)
+        repo.do(["rm", d])
+        tagd("vendored:replaces-symlink")
+    else:
+        parent = rng.choice(["", "", "src", "lib", "a"])
+        cand = os.path.join(parent, rng.choice(VENDOR_DIRS)) if parent else rng.choice(VENDOR_DIRS)
+        cur, ok = "", True
+        for comp in cand.split("/")[:-1]:
+            cur = os.path.join(cur, comp) if cur else comp
+            a = repo.abs(cur)
+            if os.path.islink(a) or (os.path.exists(a) and not os.path.isdir(a)):
+                ok = False
+        if not ok or os.path.lexists(repo.abs(cand)):
+            return
+        d = cand
+        tagd("vendored:new")
+    names = rng.sample(["x.rs", "y.rs", "m.rs", "z.py", "notes.txt", "w.rs"], rng.randint(1, 3))
+    contents = {n: rand_content(rng, pool) for n in names}
+    if len(names) > 1 and rng.random() < 0.4:
+        contents[names[1]] = contents[names[0]]            # identical blobs under different names
+    nested = rng.random() < 0.4                            # each copy has a sub-directory of its own
+    copies = rng.sample(COPY_NAMES, rng.randint(2, 3))
+    where = [os.path.join(d, c) for c in copies]
+    if rng.random() < 0.7:
+        where.append(os.path.join(d, "deep", "inner"))    # the same tree again, one level further down
+    if rng.random() < 0.3:
+        where.append(os.path.join(d, copies[0] + "-x", "l1", "l2"))
+    for w in where:
+        for n in names:
+            repo.do(["write", os.path.join(w, n), contents[n]])
+        if nested:
+            repo.do(["write", os.path.join(w, "sub", names[0]), contents[names[0]]])
+    if rng.random() < 0.3:                                 # a file of its own next to the copies
+        repo.do(["write", os.path.join(d, "own.rs"), rand_content(rng, pool)])
+
+
 def mutate_worktree(rng, repo, pool, hist):
     """One random work-tree operation (adds, edits, deletions, renames, chmod, swaps, symlinks)."""
     files, links, dirs = repo.walk()
@@ -206,6 +257,9 @@ def mutate_worktree(rng, repo, pool, hist):
     def tagd(t):
         hist[t] = hist.get(t, 0) + 1
 
+    if rng.random() < 0.07:
+        vendored_copies(rng, repo, pool, files, links, tagd)
+        return
     if files and rng.random() < 0.08:
         # give a file the sibling its rule asks for, or take a sibling away
         have = [f for f in files if os.path.basename(f) in PARTNER]
@@ -384,8 +438,13 @@ def index_state(rng, repo, hist):
             repo.do(["git", "rm", "-q", "-f", "--", rng.choice(tfiles)])
             tagd("staged-delete")
         elif r < 0.54 and tfiles:
-            repo.do(["git", "rm", "-q", "-f", "--cached", "--", rng.choice(tfiles)])
-            tagd("rm-cached")
+            t = rng.choice(tfiles)
+            if "/" in t and rng.random() < 0.3:           # a whole directory leaves the index, files stay
+                repo.do(["git", "rm", "-r", "-q", "-f", "--cached", "--", t.split("/")[0]])
+                tagd("rm-cached-dir")
+            else:
+                repo.do(["git", "rm", "-q", "-f", "--cached", "--", t])
+                tagd("rm-cached")
         elif r < 0.66 and tfiles:
             p = rng.choice(tfiles)
             repo.do(["write", p, rand_content(rng, pool)])
